@@ -1,0 +1,26 @@
+//! Verification hooks, compiled only with the `verif-hooks` feature.
+//!
+//! `point(name)` marks a place where a model-checking harness may pre-empt the running
+//! thread. It does nothing unless a callback has been installed with `set_point_hook`.
+
+use std::sync::RwLock;
+
+/// Callback invoked at every pre-emption point with the point's name.
+pub type PointHook = Box<dyn Fn(&'static str) + Send + Sync>;
+
+static HOOK: RwLock<Option<PointHook>> = RwLock::new(None);
+
+/// Installs (or removes) the process-wide pre-emption callback.
+pub fn set_point_hook(hook: Option<PointHook>) {
+    *HOOK.write().unwrap_or_else(|e| e.into_inner()) = hook;
+}
+
+/// A named pre-emption point.
+#[inline]
+pub fn point(name: &'static str) {
+    if let Ok(guard) = HOOK.read() {
+        if let Some(hook) = guard.as_ref() {
+            hook(name);
+        }
+    }
+}
